@@ -98,18 +98,51 @@ def kahn_rules(rep, prog, f, S):
             apps[0].path[-1][1] is True and npred(apps[0].path[-1][0], True) == ready
         rep.check("KAHN.ready", okr, fwhere(f, apps[0].node if apps else None), "a child joins the work list exactly when it has no parent left in the *updated* matrix",
                   "readiness test is not `len(pa(j, updated A)) == 0` followed by sinks.append(j)")
-    # K4 leftover
-    rs = [r for r in S.select("raise", qname=q) if r.exctype == "ValueError" and not r.loops and any(mentions(c, ("after", lw, A_)) for c, _ in r.path)]
-    okl = False
-    if len(rs) == 1:
-        c, pol = rs[0].path[-1]
+    # K4 leftover: either "entries are left in the working matrix" or "fewer nodes emitted than there are"
+    kind = None
+    node = None
+    rets = S.select("return", qname=q)
+    for r in [r for r in S.select("raise", qname=q) if r.exctype == "ValueError" and not r.loops and r.path]:
+        c, pol = r.path[-1]
         pn = npred(c, pol)
-        okl = pn in ((">0", (((("method", ("after", lw, A_), "sum", (), ()),), 1),)), ("!=0", (((("method", ("after", lw, A_), "sum", (), ()),), 1),)),
-                     ("atom", ("method", ("after", lw, A_), "any", (), ()), True))
-        rets = S.select("return", qname=q)
-        okl = okl and len(rets) == 1 and rets[0].value == ("after", lw, out_) and (c, not pol) in rets[0].path
-    rep.check("KAHN.leftover", okl, fwhere(f, rs[0].node if rs else None), "edges left in the working matrix => ValueError; otherwise the ordering is returned",
-              "the leftover-edge (cycle) check is missing or does not guard the return")
+        aA, aO = ("after", lw, A_), ("after", lw, out_)
+        ssum = ("method", aA, "sum", (), ())
+        if pn in ((">0", (((ssum,), 1),)), ("!=0", (((ssum,), 1),)), ("atom", ("method", aA, "any", (), ()), True),
+                  (">0", (((("ext", "numpy.sum", (aA,), ()),), 1),)), ("atom", ("ext", "numpy.any", (aA,), ()), True)):
+            k_ = "entries"
+        else:
+            k_ = None
+            if pn[0] in (">0", "!=0"):
+                d = dict(pn[1])
+                lo = ("ext", "len", (aO,), ())
+                sizes = [("ext", "len", (("param", "A"),), ()), ("ext", "len", (state[A_],), ()), ("sub", ("attr", ("param", "A"), "shape"), ("const", 0)),
+                         ("ext", "len", (aA,), ()), ("sub", ("attr", aA, "shape"), ("const", 0))]
+                for sz in sizes:
+                    if d == {(sz,): 1, (lo,): -1} or (pn[0] == "!=0" and d in ({(sz,): -1, (lo,): 1}, {(sz,): 1, (lo,): -1})):
+                        k_ = "count"
+        if k_ and len(rets) == 1 and rets[0].value == ("after", lw, out_) and (c, not pol) in rets[0].path:
+            kind, node = k_, r.node
+    rep.check("KAHN.leftover", kind is not None, fwhere(f, node), "after the loop: %s => ValueError; otherwise the ordering is returned" % (
+        "entries left in the working matrix" if kind == "entries" else "fewer nodes emitted than the graph has"),
+        "the leftover (cycle) check is missing or does not guard the return")
+    return kind
+
+
+def cycle_rules(rep, prog, f, leftover):
+    """every kind of cycle is rejected by the pre-check or by the leftover check - whatever the signs"""
+    fpre, cov = PW.precheck_coverage(prog)
+    w = fwhere(f, cov["node"]) if cov["node"] is not None else fwhere(f)
+    if cov["false_rejections"]:
+        rep.bad("CYCLES.false-rejection", w, "the pre-check also fires on acyclic patterns (entry pairs %s): valid DAGs are rejected" % cov["false_rejections"][:4])
+    # entries on the diagonal / of two-cycles are never removed by Kahn's loop (it only clears edges to *children*, and
+    # ch() excludes both - C15's table), so an "entries left" test after the loop catches them as well
+    rep.check("CYCLES.self-loop", cov["diag"] or leftover == "entries", w,
+              "self-loops of any sign are rejected (%s)" % ("pre-check covers the diagonal" if cov["diag"] else "their entry survives to the leftover test"),
+              "a self-loop on a node with other parents is accepted: the pre-check skips the diagonal (%s) and the final test only counts emitted nodes" % cov["why"][:120])
+    rep.check("CYCLES.two-cycle", cov["pairs"] or leftover == "entries", w,
+              "two-cycles of any sign are rejected (%s)" % ("pre-check: both entries non-zero" if cov["pairs"] else "their entries survive to the leftover test"),
+              "a two-cycle can be accepted: %s" % (cov["why"][:160] or "no pre-check and a count-based final test"))
+    rep.check("CYCLES.longer", leftover in ("entries", "count"), w, "longer cycles never drain and are caught after the loop", "nothing rejects cycles of length >= 3")
 
 
 def run(prog, rep, tier):
@@ -139,14 +172,13 @@ def run(prog, rep, tier):
     S = Sym(prog)
     summ, _ = run_function(S, f)
     rs = [r for r in S.select("raise", qname=f.qname)]
-    rep.check("TOPO.raises", len(rs) >= 2 and all(r.exctype == "ValueError" for r in rs), fwhere(f),
-              "%d rejection sites, all ValueError" % len(rs), "rejection sites are not (at least two) ValueError raises: %s" %
-              [r.exctype for r in rs])
+    rep.check("TOPO.raises", len(rs) >= 1 and all(r.exctype == "ValueError" for r in rs), fwhere(f),
+              "%d rejection sites, all ValueError" % len(rs), "rejections are not ValueError raises: %s" % [r.exctype for r in rs])
     rets = S.select("return", qname=f.qname)
     rep.check("TOPO.returns", bool(rets) and all(not is_const(r.value) for r in rets), fwhere(f),
               "returns the computed ordering", "returns a constant")
-    PW.precheck_rule(prog, rep)
-    kahn_rules(rep, prog, f, S)
+    leftover = kahn_rules(rep, prog, f, S)
+    cycle_rules(rep, prog, f, leftover)
 
     # 4. gates of the three constructors
     S1 = dag_gate(rep, prog, "sempler.lganm.LGANM.__init__", "W")
